@@ -42,7 +42,8 @@ def build_world():
         "first": OPT.Measurements.from_diffusion_curves_first(two),
         "second": OPT.Measurements(data=[OPT.Measurement(x=x, t=333.15, p=U.law_value("lawB", 1, x, 333.15)) for x in (0.1, 0.3, 0.5, 0.7, 0.9)]),
     }
-    comps = {"w": U.Composition(p=0.15, type="weight"), "m": U.Composition(p=0.4, type="molar"), "list": [U.Composition(p=x, type="weight") for x in (0.1, 0.5, 0.9)]}
+    comps = {"w": U.Composition(p=0.15, type="weight"), "m": U.Composition(p=0.4, type="molar"), "list": [U.Composition(p=x, type="weight") for x in (0.1, 0.5, 0.9)],
+             "pure0": U.Composition(p=0.0, type="molar"), "pure1": U.Composition(p=1.0, type="molar"), "pure1w": U.Composition(p=1.0, type="weight")}
     perms = (U.Permeance(value=2.5e-2), U.Permeance(value=3.0e-5))
     curve = U.DiffusionCurve(mixture=mix, membrane_name="M", feed_temperature=333.15, feed_compositions=[U.Composition(p=x, type="molar") for x in (0.2, 0.6)],
                              partial_fluxes=[(0.031, 0.0017), (0.052, 0.0009)], permeate_temperature=293.15)
@@ -86,6 +87,13 @@ OPS = [
     ("curve metrics", lambda w: [w["curve"].get_separation_factor, w["curve"].get_psi, w["curve"].get_selectivity, w["curve"].get_permeances, w["curve"].permeate_composition]),
     ("process metrics", lambda w: [w["pm"].get_separation_factor, w["pm"].get_psi, w["pm"].get_selectivity]),
     ("measurements from curves", lambda w: [OPT.Measurements.from_diffusion_curves_first(w["two"]), OPT.Measurements.from_diffusion_curves_second(w["molar"])]),
+    ("partial pressures UNIQUAC pure molar", lambda w: [U.pyvaporation.get_partial_pressures(333.15, w["mix"], w["comps"]["pure0"], "UNIQUAC"),
+                                                        U.pyvaporation.get_partial_pressures(333.15, w["mix"], w["comps"]["pure1"], "UNIQUAC"),
+                                                        U.pyvaporation.get_partial_pressures(333.15, w["syn"], w["comps"]["pure1w"], "UNIQUAC")]),
+    ("partial pressures NRTL pure molar", lambda w: [U.pyvaporation.get_partial_pressures(333.15, w["mix"], w["comps"]["pure0"], "NRTL"),
+                                                     U.pyvaporation.get_partial_pressures(333.15, w["mix"], w["comps"]["pure1"], "NRTL")]),
+    ("solver vac UNIQUAC pure molar", lambda w: w["pv"].calculate_partial_fluxes(feed_temperature=333.15, composition=w["comps"]["pure1"], calculation_type="UNIQUAC")),
+    ("membrane permeance with initial permeance", lambda w: w["mem_syn"].get_permeance(338.0, w["syn"].first_component, initial_permeance=w["perms"][0])),
     ("partial pressures", lambda w: U.pyvaporation.get_partial_pressures(333.15, w["syn"], U.Composition(p=0.3, type="weight"), "UNIQUAC")),
     ("fit", lambda w: U.pyvaporation.fit(w["meas"]["second"], n=1, m=0, include_zero=False, component_index=1)),
     ("fit include_zero", lambda w: U.pyvaporation.fit(w["meas"]["second"], n=1, m=0, include_zero=True, component_index=1)),
